@@ -119,7 +119,14 @@ def run_reentrant(case, outcome):
 
     def dev(i, name="?"):
         if i not in devs:
-            devs[i] = RecProxy(i) if name is None else RecDrv(i, name)
+            if name is None:
+                devs[i] = RecProxy(i)
+            elif i % 2:
+                # the usual idiom: the device name is a class attribute of the driver class (it shadows the base class's `name`
+                # property, so it IS the driver's public name); the instance is created with another `name=` argument
+                devs[i] = type("RecDrv_%d" % i, (RecDrv,), {"name": name})(i, "instance-of-" + name)
+            else:
+                devs[i] = RecDrv(i, name)
         return devs[i]
 
     def cli(i):
@@ -206,7 +213,14 @@ def run_plain(case, outcome):
 
     def dev(i, name="?"):
         if i not in devs:
-            devs[i] = RecProxy(i) if name is None else RecDrv(i, name)
+            if name is None:
+                devs[i] = RecProxy(i)
+            elif i % 2:
+                # the usual idiom: the device name is a class attribute of the driver class (it shadows the base class's `name`
+                # property, so it IS the driver's public name); the instance is created with another `name=` argument
+                devs[i] = type("RecDrv_%d" % i, (RecDrv,), {"name": name})(i, "instance-of-" + name)
+            else:
+                devs[i] = RecDrv(i, name)
         return devs[i]
 
     def cli(i):
